@@ -18,6 +18,7 @@ class Sym:
         self.fn = fn
         self.defs = {}  # local -> list of ("stmt", bb, idx, rv) | ("call", bb, term)
         self.partial = set()  # locals assigned through a projection
+        self.deref_written = set()  # pointers whose pointee is written in this body
         for bi, b in enumerate(fn.blocks):
             if b["cleanup"]:
                 continue
@@ -25,7 +26,10 @@ class Sym:
                 if s["k"] == "assign":
                     lhs = s["lhs"]
                     if lhs["p"]:
-                        self.partial.add(lhs["l"])
+                        if lhs["p"][0] == "*":
+                            self.deref_written.add(lhs["l"])
+                        else:
+                            self.partial.add(lhs["l"])
                     else:
                         self.defs.setdefault(lhs["l"], []).append(("stmt", bi, si, s["rv"]))
                 elif s["k"] == "setdiscr":
@@ -34,7 +38,10 @@ class Sym:
             if t["k"] == "call":
                 d = t["dest"]
                 if d["p"]:
-                    self.partial.add(d["l"])
+                    if d["p"][0] == "*":
+                        self.deref_written.add(d["l"])
+                    else:
+                        self.partial.add(d["l"])
                 else:
                     self.defs.setdefault(d["l"], []).append(("call", bi, t))
         self.multi = set(l for l, ds in self.defs.items() if len(ds) > 1) | self.partial
@@ -100,11 +107,7 @@ class Sym:
         return e
 
     def _reads_mutable(self, e):
-        if not isinstance(e, tuple):
-            return False
-        if e[0] == "l":
-            return e[1] in self.multi or e[1] in self.mut_borrowed
-        return any(self._reads_mutable(x) for x in e[1:] if isinstance(x, tuple))
+        return mentions(e, lambda x: x[0] == "l" and (x[1] in self.multi or x[1] in self.mut_borrowed))
 
     def rvalue(self, rv, depth=0):
         k = rv["k"]
